@@ -97,6 +97,67 @@ theorem fragments_rfc_error_rejected (d : Decoder) (a : Bytes) (frags : List Byt
   rw [← Lemmas.HpackDec.split_invariance_list d a frags]
   exact Lemmas.HpackDec.spec_error_rejected (fun bs h => Lemmas.Huffman.decode_eq_spec bs h) d _ e hi hv hc h
 
+section History
+open H2V.Model.Hpack
+
+/-- h2's decoder over a connection's header blocks, each arriving as a HEADERS fragment plus
+    CONTINUATION fragments; stops at the first block that is not accepted -/
+def blocksOk (d : Decoder) : List (Bytes × List Bytes) → Option (List (List Header) × Decoder)
+  | [] => some ([], d)
+  | (a, frags) :: rest =>
+    match (frags.foldl Lemmas.HpackDec.feed (d.decode a)).result with
+    | .ok () => (blocksOk (frags.foldl Lemmas.HpackDec.feed (d.decode a)).dec rest).map
+                  (fun r => ((frags.foldl Lemmas.HpackDec.feed (d.decode a)).fields :: r.1, r.2))
+    | .error _ => none
+
+/-- the RFC 7541 reference over the same blocks, each as one byte string -/
+def specBlocks (s : Spec.Hpack.St) : List Bytes → Option (List (List Spec.Hpack.Field) × Spec.Hpack.St)
+  | [] => some ([], s)
+  | b :: rest =>
+    match Spec.Hpack.decode s b with
+    | .ok (fs, s') => (specBlocks s' rest).map (fun r => (fs :: r.1, r.2))
+    | .error _ => none
+
+/-- **whole connection histories**: for ANY sequence of header blocks, each cut into a HEADERS
+    fragment and any CONTINUATION fragments, if h2's decoder accepts them all (fed fragment by
+    fragment, carrying its dynamic table from block to block) then the RFC 7541 reference, run over
+    the uncut blocks from the abstraction of the same starting state, accepts them all, assigns every
+    block exactly the same field list, and ends with the same dynamic table — no hypothesis on the
+    intermediate states (the table invariant and the consumed `continuing` mark are carried by the
+    induction). -/
+theorem history_of_fragmented_blocks_sound (blocks : List (Bytes × List Bytes)) (d : Decoder)
+    (hi : Lemmas.HpackDec.Table.Inv d.table) (hc : d.continuing = false)
+    (hv : ∀ b ∈ blocks, Bytes.Valid (b.1 ++ b.2.flatten))
+    (fs : List (List Header)) (d' : Decoder) (h : blocksOk d blocks = some (fs, d')) :
+    specBlocks (Lemmas.HpackDec.abs d) (blocks.map fun b => b.1 ++ b.2.flatten)
+      = some (fs, Lemmas.HpackDec.abs d') := by
+  induction blocks generalizing d fs d' with
+  | nil => simp only [blocksOk, Option.some.injEq, Prod.mk.injEq] at h; obtain ⟨rfl, rfl⟩ := h; rfl
+  | cons b rest ih =>
+    obtain ⟨a, frags⟩ := b
+    simp only [blocksOk] at h
+    split at h
+    · rename_i hr
+      have hvb : Bytes.Valid (a ++ frags.flatten) := hv (a, frags) (by simp)
+      have hs := (fragments_decode_sound d a frags hi hvb hc hr).1
+      have hi' : Lemmas.HpackDec.Table.Inv (frags.foldl Lemmas.HpackDec.feed (d.decode a)).dec.table := by
+        rw [← Lemmas.HpackDec.split_invariance_list d a frags]
+        exact Lemmas.HpackDec.decode_preserves_inv d _ hi
+      have hc' : (frags.foldl Lemmas.HpackDec.feed (d.decode a)).dec.continuing = false := by
+        rw [← Lemmas.HpackDec.split_invariance_list d a frags]
+        exact Lemmas.HpackDec.decode_continuing_false d _
+      cases hrest : blocksOk (frags.foldl Lemmas.HpackDec.feed (d.decode a)).dec rest with
+      | none => rw [hrest] at h; simp at h
+      | some r =>
+        obtain ⟨fs', d''⟩ := r
+        rw [hrest] at h
+        simp only [Option.map_some, Option.some.injEq, Prod.mk.injEq] at h
+        obtain ⟨rfl, rfl⟩ := h
+        have := ih _ hi' hc' (fun b hb => hv b (by simp [hb])) fs' d'' hrest
+        simp only [List.map_cons, specBlocks, hs, this, Option.map_some]
+    · cases h
+end History
+
 open H2V.Model.Hpack in
 /-- `table_within_limit`: after ANY sequence of decode / queue_size_update / continue_block calls
     the dynamic table's size is the sum of its entries' sizes, never exceeds its maximum, and the
@@ -149,5 +210,11 @@ example :
     (match ([[], [132, 65, 15, 119], [119, 119, 46, 101, 120, 97, 109, 112, 108, 101, 46, 99, 111, 109]].foldl
         Lemmas.HpackDec.feed ((Decoder.new 4096).decode [130, 134])).result with
       | .ok _ => true | .error _ => false) = true := by decide +kernel
+
+-- non-vacuity of the history theorem: two blocks, the first cut inside a literal that enters the table,
+-- the second referring to that entry (index 62), are accepted from the initial state
+open H2V.Model.Hpack in
+example : (blocksOk (Decoder.new 4096) [([130, 64, 1], [[97], [1, 98]]), ([190], [[]])]).isSome = true := by
+  decide +kernel
 
 end H2V.Props.C11
